@@ -214,8 +214,12 @@ impl FileManager {
         handle: FileHandle,
         fields: Vec<Field>,
     ) -> Result<(), RuntimeError> {
-        // TODO if sum(field width) > rec_len, throw error
         let file_info = self.try_get_file_info(&handle)?;
+        // the fields must fit in one record
+        let total_width: usize = fields.iter().map(|field| field.width).sum();
+        if total_width > file_info.rec_len {
+            return Err(RuntimeError::FieldOverflow);
+        }
         file_info.add_field_list(fields);
         Ok(())
     }
